@@ -29,7 +29,7 @@ PROPS = {
         "level": "proof",
         "trusted_base": ["vk.ground exact minimum-distance enumeration (Gray-code walk over the row space, k<=24; MacWilliams via the dual when n-k<=24), GF(2)[x] bitmask arithmetic independent of /repo", "C01 contract forward(x) == x.G ties the enumerated row space of the published G to the encoder's output"],
         "assumptions": ["advertised distance read from minimum_distance()/minimum_distance/delta/error_correction_capability; repetition codes advertise d = n by documentation only"],
-        "out_of_reach": [],
+        "out_of_reach": ["true minimum distance of codes with min(k, n-k) > 24 (thorough tier: BCH(63, .) with 24 < k < 39): the distance clauses are not claimed for them; their designed distance rests on the BCH-root clauses of C03.cyclic_structure plus the BCH bound (a theorem, not checked here)"],
     },
     "C02": {
         "level": "proof",
